@@ -21,6 +21,9 @@ checks = {
  "C15": dict(text="Seeded exploration: thousands of generated programs x seeded interleaved histories of host operations on 1-4 VMs of one Program, real compiler/linker/VM, every global of every live VM compared with an executable reference state machine after every event; defined run-time failures injected inside invocations; per-invocation liveness budget. Evidence for the seeds run, not proof.",
              note="Trusts the reference interpreter sim/lang.py and the restriction of the program family documented in DESIGN.md (C15).",
              tech="deterministic simulation: seeded multi-VM operation histories with injected in-invocation failures vs. reference state machine"),
+ "C16": dict(text="Seeded exploration: thousands of generated programs x partitions into 2-5 modules forming import DAGs (chains, diamonds, fan-in) x text layouts x seeded schedules of compiles (in-process and real nslc.py children with their own hash seeds), re-compilations, links under several add sets/orders and loader kinds (also through nslr.py), duplicate-definition steps and a second store generation, on a private simulated module store; every linked program is compared with the same functions compiled as one module, every Load(name) is logged (exactly-once), canonical programs are compared across add orders, duplicates must be rejected, Link() has a step budget. Evidence for the seeds run, not proof.",
+             note="Self-consistency oracle: the one-module compilation is the reference. Cross-module references restricted to exported functions with scalar parameters and globals of directly imported modules. Four genuine defects found by this check were repaired in /repo (known_findings.json, status fixed).",
+             tech="deterministic simulation: seeded compile/store/link schedules over a simulated module store, hash seeds, exactly-once load log, refinement against the one-module program"),
 }
 m = {
  "version": 1,
